@@ -198,7 +198,29 @@ def rule_multpair(ctx):
         elif isinstance(n, ast.Assign) and isinstance(n.targets[0], ast.Attribute) and \
                 n.targets[0].attr == "multiplicity" and isinstance(n.value, ast.BinOp):
             found = (n, n.value.right, isinstance(n.value.op, ast.FloorDiv))
-    if found is None:
+    recomputed = None
+    for n in walk_local(rs.node):
+        if isinstance(n, ast.Assign) and isinstance(n.targets[0], ast.Attribute) and \
+                n.targets[0].attr == "multiplicity" and isinstance(n.value, ast.Call) and \
+                (dotted(n.value.func) or "").split(".")[-1] == "prod" and n.value.args and \
+                isinstance(n.value.args[0], (ast.GeneratorExp, ast.ListComp)):
+            recomputed = n
+    if found is None and recomputed is not None:
+        # recomputation from the table: right iff the factors are the *recorded* sizes
+        g = recomputed.value.args[0]
+        it = g.generators[0]
+        over_values = isinstance(it.iter, ast.Call) and isinstance(it.iter.func, ast.Attribute) \
+            and it.iter.func.attr == "values" and "sliced_inds" in C.unparse(it.iter.func.value)
+        elt_size = isinstance(g.elt, ast.Attribute) and g.elt.attr == "size" and \
+            isinstance(g.elt.value, ast.Name) and isinstance(it.target, ast.Name) and \
+            g.elt.value.id == it.target.id
+        if over_values and elt_size:
+            r.ok(key, C.loc(rs, recomputed), "slice count recomputed as the product of the recorded sizes")
+        else:
+            r.violation(key, C.loc(rs, recomputed), "restore_ind recomputes the slice count from "
+                        f"`{C.unparse(g.elt)}` over `{C.unparse(it.iter, 50)}`, not from the sizes "
+                        "recorded in SliceInfo (a projected index recorded 1, its dimension is larger)")
+    elif found is None:
         r.violation(key, rs.loc, "restore_ind does not restore the slice count")
     else:
         st, div, is_floordiv = found
@@ -298,4 +320,15 @@ def rule_combine(ctx):
     return r
 
 
-RULES = [rule_order, rule_pair, rule_multpair, rule_apply, rule_chunkkey, rule_combine]
+def rule_copy(ctx):
+    """Shared with C04-COPY (the sliced-index table and the sliced inputs only): a tree
+    and its copy must not share the table, or un-slicing one changes the slice
+    numbering of the other."""
+    from .c04 import rule_copy as src
+
+    return C.reuse_rule(ctx, src, "C04-COPY", "C06-COPY",
+                        "the sliced-index table is not shared between a tree and its copy",
+                        lambda i: i.construct.endswith(("::sliced_inds", "::sliced_inputs")), 2)
+
+
+RULES = [rule_order, rule_pair, rule_multpair, rule_apply, rule_chunkkey, rule_combine, rule_copy]
